@@ -316,6 +316,7 @@ def run_entry(spec):
     use_inputter = rng.random() < 0.5
     viol = []
     checked = 0
+    hyphen_prefixes = [0]
 
     def pump(d):
         from twisted.internet import defer
@@ -334,6 +335,10 @@ def run_entry(spec):
     ever_nps = set()
     for _ in range(rng.randint(1, 5)):
         prefix = rng.choice(["", "1", "12", "2", "3", "9", "45", "x", "1 "])
+        if not use_inputter and rng.random() < 0.35:
+            # a front-end that completes on the whole input field hands back what it was offered, hyphen included
+            prefix = rng.choice(["1-", "12-", "2-", "-", rng.choice(nps) + "-", "1-p"])
+            hyphen_prefixes[0] += 1
         live_others = [o for o in others if not o.close_calls]
         if len(live_others) > 1 and rng.random() < 0.4:
             # a sender gives up between two refreshes: the server's list shrinks
@@ -510,7 +515,7 @@ def run_entry(spec):
         o.close()
     sch.drain(60.0, 6000, until=lambda: all(o.closed for o in others + [b]))
     world.finish()
-    return {"violations": viol, "nontrivial": ["entry", spec["seed"], final, use_inputter], "counters": {"completions_checked": checked, "out_of_order_helper_calls": order_calls[0], "nameplate_list_shrunk": shrunk, "codes_entered_by_completion": tabbed, "nameplate_edits_after_commit": rollbacks},
+    return {"violations": viol, "nontrivial": ["entry", spec["seed"], final, use_inputter], "counters": {"completions_checked": checked, "out_of_order_helper_calls": order_calls[0], "nameplate_list_shrunk": shrunk, "codes_entered_by_completion": tabbed, "nameplate_edits_after_commit": rollbacks, "nameplate_prefixes_ending_in_a_hyphen": hyphen_prefixes[0]},
             "sample": {"kind": "entry", "server_nameplates": sorted(server_nps), "final_code": final, "via": wit["via"], "completions_checked": checked}}
 
 
